@@ -62,6 +62,9 @@ def to_time(tmType, tmInst, tau):
         return (tau / 2 + 1) * tau + 1 if tau > 0 else 1 / ((tau / 2 - 1) * tau + 1)
     if tmType == 1:
         return tau
+    if tmType == 3:       # reciprocal map: T = b / (1 - a*tau)
+        a, b = (Fr(1, 8), Fr(1)) if tmInst == 1 else (Fr(1, 4), Fr(1, 2))
+        return b / (1 - a * tau)
     return tau / 2 + Fr(1, 4) if tmInst == 1 else 2 * tau + Fr(1, 2)
 
 
@@ -86,16 +89,18 @@ class OptCase:
     def layout(self):
         return layout(self.order, self.d, self.n, self.flags, self.smType, self.smInst)
 
-    def setup_lines(self, rid, mode='Q'):
+    def setup_lines(self, rid, mode='Q', init_last=False):
+        """init_last: every other setter first, `setInitState` is the last configuration call (the state a user who
+        configures and then initialises leaves behind)"""
         s = self.slot
-        L = [f'{rid}.a {mode} opt_new {s} {self.order} {self.d} {self.tmType} {self.smType}',
-             f'{rid}.b {mode} opt_maps {s} {self.tmInst} {self.smInst}',
-             f'{rid}.c {mode} opt_init {s} dur {self.n} {self.n + 1} {num(self.t0, mode)} {nums(self.h, mode)} '
-             + ' '.join(nums(r, mode) for r in self.P) + ' ' + ' '.join(nums(b, mode) for b in self.bc),
-             f'{rid}.d {mode} opt_flags {s} {self.flags}',
-             f'{rid}.e {mode} opt_rho {s} {num(self.rho, mode)}',
-             f'{rid}.f {mode} opt_steps {s} {self.steps}']
-        return L
+        new = f'{rid}.a {mode} opt_new {s} {self.order} {self.d} {self.tmType} {self.smType}'
+        maps = f'{rid}.b {mode} opt_maps {s} {self.tmInst} {self.smInst}'
+        init = (f'{rid}.c {mode} opt_init {s} dur {self.n} {self.n + 1} {num(self.t0, mode)} {nums(self.h, mode)} '
+                + ' '.join(nums(r, mode) for r in self.P) + ' ' + ' '.join(nums(b, mode) for b in self.bc))
+        rest = [f'{rid}.d {mode} opt_flags {s} {self.flags}',
+                f'{rid}.e {mode} opt_rho {s} {num(self.rho, mode)}',
+                f'{rid}.f {mode} opt_steps {s} {self.steps}']
+        return [new, maps] + rest + [init] if init_last else [new, maps, init] + rest
 
     def spec_tokens(self, mode='Q'):
         sp = self.spec
@@ -137,9 +142,9 @@ def rand_spec(rng, useWp=None, zero_some=True):
 
 
 def rand_case(rng, order, d, n, flags=None, tmType=None, smType=None, k=0, steps=None, rho=None, short=0.85):
-    tmType = rng.choice([0, 0, 1, 2]) if tmType is None else tmType
+    tmType = rng.choice([0, 0, 1, 2, 3]) if tmType is None else tmType
     smType = (rng.choice([0, 1]) if d >= 2 else 0) if smType is None else smType
-    tmInst = rng.choice([0, 1]) if tmType == 2 else rng.choice([0, 0, 1])
+    tmInst = rng.choice([0, 1]) if tmType in (2, 3) else rng.choice([0, 0, 1])
     smInst = rng.choice([0, 1, 2]) if smType == 1 else rng.choice([0, 0, 1])
     flags = rng.randrange(256) if flags is None else flags
     c = OptCase(order, d, n, tmType, smType, tmInst, smInst, flags,
@@ -167,6 +172,8 @@ def rand_x(rng, c):
             x[i] = gen.dyadic(rng, -1.5, 1.5, 3)
         elif c.tmType == 1:
             x[i] = gen.dyadic(rng, 0.25, 3.0, 3)
+        elif c.tmType == 3:
+            x[i] = gen.dyadic(rng, -6.0, 3.0, 3) if c.tmInst == 1 else gen.dyadic(rng, -3.0, 1.5, 3)
         elif c.tmInst == 1:
             x[i] = gen.dyadic(rng, 0.5, 5.0, 3)
         else:
